@@ -120,6 +120,22 @@ def check_props(prop, scratch):
     return theorems, res, r.returncode == 0, text[-3000:], " ".join(cmd[2:])
 
 
+def run_coqchk(prop):
+    """Thorough tier: re-check the compiled property file and everything it depends on with the independent checker."""
+    mod = "PV." + prop.PROPS_FILE[:-2].replace("/", ".")
+    try:
+        r = subprocess.run(["timeout", "1500", "coqchk", "-o", "-silent", "-R", COQ, "PV", mod], capture_output=True, text=True, cwd=COQ)
+    except Exception as ex:  # pylint: disable=broad-except
+        return {"ok": False, "summary": "coqchk could not be run: %s" % ex}
+    out = r.stdout + r.stderr
+    m = re.search(r"\* Axioms:(.*?)\n\s*\n\* ", out, flags=re.S)
+    axioms = (m.group(1).strip() if m else "?")
+    allowed = set(getattr(prop, "ALLOWED_AXIOMS", []))
+    names = [] if axioms == "<none>" else [a.strip() for a in axioms.splitlines() if a.strip()]
+    ok = r.returncode == 0 and m is not None and all(any(n.endswith(a) for a in allowed) for n in names)
+    return {"ok": ok, "summary": "coqchk -o %s: axioms = %s; exit %d" % (mod, axioms.replace("\n", " "), r.returncode)}
+
+
 def run_impl(prop_id, cases, scratch, hashseed="0", extra_env=None, timeout=3000):
     inp = os.path.join(scratch, "impl_in_%s.json" % hashlib.sha1(os.urandom(8)).hexdigest()[:8])
     outp = inp.replace("impl_in_", "impl_out_")
@@ -304,7 +320,7 @@ def repo_state():
 
 
 def write_replay(prop, payload):
-    d = os.path.join(VERIF, "replays", prop.ID)
+    d = os.path.join(VERIF, os.environ.get("VERIF_REPLAY_DIR", "replays"), prop.ID)
     os.makedirs(d, exist_ok=True)
     name = sha(payload.get("input", payload))[:16] + ".json"
     path = os.path.join(d, name)
@@ -359,6 +375,11 @@ def run(prop, args, seed, scratch, t0):
             discharged += 1
         else:
             bad_theorems.append(th)
+    coqchk = None
+    if tier == "thorough" and ok_props and not args.replay:
+        coqchk = run_coqchk(prop)
+        if not coqchk["ok"]:
+            bad_theorems.append("coqchk:" + coqchk["summary"][:200])
     proofs_ok = bool(ok_props and not forb and not bad_theorems and theorems)  # ok_build covers unrelated files too: reported, not required
     if not proofs_ok:
         log("PROOF-STEP-FAILED build_ok=%s props_ok=%s forbidden=%s undischarged=%s" % (ok_build, ok_props, forb, bad_theorems))
@@ -451,6 +472,7 @@ def run(prop, args, seed, scratch, t0):
         "Coq 8.16.1 kernel incl. the vm_compute virtual machine (used to evaluate the model on the generated cases); native_compute is not used",
         "axioms per theorem as printed by Print Assumptions on this run: " + json.dumps({k: (v or "Closed under the global context") for k, v in assumptions.items()}),
         "no extraction (no Extract directives); the model is evaluated inside Coq",
+    ] + ([coqchk["summary"]] if coqchk else ["coqchk -o is run in the thorough tier only"]) + [
         "hand-written model tied to /repo by this run's correspondence check (sampled, not proven): harness/props/%s.py generators, Gallina literal emitters and Check/*.v comparers" % prop.ID.lower(),
     ] + list(getattr(prop, "TRUSTED", []))
     ev = {
@@ -475,7 +497,7 @@ def run(prop, args, seed, scratch, t0):
         "wall_s": round(time.time() - t0, 1),
         "violations": len(violations),
     }
-    if not args.replay:
+    if not args.replay and not os.environ.get("VERIF_NO_EVIDENCE"):
         os.makedirs(os.path.join(VERIF, "evidence"), exist_ok=True)
         json.dump(ev, open(os.path.join(VERIF, "evidence", "%s.json" % prop.ID), "w"), indent=1)
     for rp, suffix in violations:
